@@ -1759,6 +1759,8 @@ func checkClose(c *checkCtx) {
 	c.assume("client and server session live in one process (one event loop, one buffer manager object)")
 	c.assume("ErrStreamClosed and ErrEndOfStream both count as closed-stream errors; a Close issued while OnData runs completes when the callback goroutine ends " +
 		"(Flush fails at once, reads of already buffered bytes inside that OnData are exempt)")
+	c.assume("Close and Flush of one end are never issued concurrently by the harness; on an end with callbacks, operations after Close are issued only where they cannot overlap " +
+		"the deferred close's own cleanup (inside OnData, with OnData parked, or after OnLocalClose fired): an operation racing with that cleanup can crash (documented residual, F2 family)")
 	c.assume("bounded progress is judged logically: closer's close completed + pair quiescent + fences passed; a pair that does not settle is inconclusive")
 	perFrom := map[string]int{}
 	var execs, nontriv int
